@@ -158,8 +158,12 @@ func probeNestedBegins(w *out.W, byName map[string]optSet) {
 		o := byName[p.opts]
 		const k = 60
 		in := strings.Repeat(p.word, k)
-		r := scanSafe(scanWith(o.o), in)
 		id := "p-" + p.opts
+		// under the watchdog: an exponential scanner does not come back from this input
+		slots[0].id.Store(id + " " + p.opts + " " + hx(in))
+		slots[0].start.Store(time.Now().UnixNano())
+		r := scanSafe(scanWith(o.o), in)
+		slots[0].start.Store(0)
 		w.ImplOnly(id, fmt.Sprintf("%q x%d: %s", p.word, k, r.dur))
 		w.Count("probe/nested-begins")
 		if r.dur > 3*time.Second {
